@@ -185,6 +185,119 @@ def make_cmd(c: dict):
 
 
 # ----------------------------------------------------------------------------------------------
+# the configuration route (what `nxpimage sb31 export` does): plan spec -> (config entry, expected tuple)
+# The expectation is written from the documented configuration format (jsonschemas/sch_sb31.yaml), not from the loader.
+
+
+def _num(v: int, style: str):
+    if style == "int":
+        return v
+    if style == "hex":
+        return hex(v)
+    if style == "HEX":
+        return "0x%08X" % v
+    if style == "bin":
+        return bin(v)
+    return str(v)
+
+
+def make_cfg_cmd(c: dict, td: str, idx: int):
+    t = c["t"]
+    st = c.get("num", "int")
+    n = lambda v: _num(v, st)  # noqa: E731
+
+    def data_source(data: bytes, allow_values: bool = True) -> dict:
+        form = c.get("form", "file")
+        if form == "values" and allow_values and len(data) % 4 == 0 and 0 < len(data) <= 96:
+            words = struct.unpack(f"<{len(data) // 4}L", data)
+            if len(words) == 1 and words[0] and st == "int":
+                return {"values": words[0]}
+            return {"values": ", ".join(str(_num(w, ("hex", "dec", "HEX")[(idx + k) % 3])) for k, w in enumerate(words))}
+        if form == "value" and allow_values and len(data) in (4, 8) and data[-1] != 0:
+            return {"value": "0x" + data[::-1].hex()}
+        name = f"d{idx}.bin"
+        with open(os.path.join(td, name), "wb") as f:
+            f.write(data)
+        return {"file": name}
+
+    def mem(d: dict, m: int) -> dict:
+        if m or c.get("explicit_mem"):
+            d["memoryId"] = n(m)
+        return d
+
+    if t == "erase":
+        return {"erase": mem({"address": n(c["a"]), "size": n(c["l"])}, c["m"])}, ("erase", c["a"], c["l"], c["m"])
+    if t == "load":
+        data = gen_bytes(c["s"], c["l"])
+        d = mem({"address": n(c["a"])}, c["m"])
+        d.update(data_source(data))
+        if c.get("auth_none"):
+            d["authentication"] = "none"
+        return {"load": d}, ("load", c["a"], data, c["m"])
+    if t in ("load_cmac", "load_hash_locking"):
+        data = gen_bytes(c["s"], c["l"])
+        d = mem({"address": n(c["a"])}, c["m"])
+        d.update(data_source(data, allow_values=False))
+        if c.get("via_load"):  # the older spelling: a load command with an authentication option
+            d["authentication"] = "cmac" if t == "load_cmac" else "hashlocking"
+            return {"load": d}, (t, c["a"], data, c["m"])
+        return {"loadCMAC" if t == "load_cmac" else "loadHashLocking": d}, (t, c["a"], data, c["m"])
+    if t in ("execute", "call"):
+        return {t: {"address": n(c["a"])}}, (t, c["a"])
+    if t == "program_fuses":
+        data = gen_bytes(c["s"], c["l"])
+        words = struct.unpack(f"<{len(data) // 4}L", data)
+        vals = ", ".join(str(_num(w, ("hex", "dec")[k % 2])) for k, w in enumerate(words))
+        return {"programFuses": {"address": n(c["a"]), "values": vals}}, ("program_fuses", c["a"], data)
+    if t == "program_ifr":
+        data = gen_bytes(c["s"], c["l"])
+        d = {"address": n(c["a"])}
+        d.update(data_source(data))
+        return {"programIFR": d}, ("program_ifr", c["a"], data)
+    if t == "copy":
+        return {"copy": {"addressFrom": n(c["a"]), "size": n(c["l"]), "addressTo": n(c["d"]), "memoryIdFrom": n(c["mf"]), "memoryIdTo": n(c["mt"])}}, ("copy", c["a"], c["l"], c["d"], c["mf"], c["mt"])
+    if t == "load_key_blob":
+        data = gen_bytes(c["s"], c["l"])
+        w = 16 + (c["w"] & 1)  # lpc55s3x: NXP_CUST_KEK_INT_SK = 16, NXP_CUST_KEK_EXT_SK = 17
+        d = {"offset": n(c["o"]), "wrappingKeyId": "NXP_CUST_KEK_INT_SK" if w == 16 else "NXP_CUST_KEK_EXT_SK"}
+        if c.get("form") == "value":
+            name = f"d{idx}.txt"
+            with open(os.path.join(td, name), "w") as f:
+                f.write(data.hex())
+            d.update(file=name, plainInput="hex")
+        else:
+            d.update(data_source(data, allow_values=False))
+        return {"loadKeyBlob": d}, ("load_key_blob", c["o"], w, data)
+    if t == "configure_memory":
+        return {"configureMemory": {"configAddress": n(c["a"]), "memoryId": n(c["m"])}}, ("configure_memory", c["a"], c["m"])
+    if t == "fill_memory":
+        return {"fillMemory": {"address": n(c["a"]), "size": n(c["l"]), "pattern": n(c["p"])}}, ("fill_memory", c["a"], c["l"], c["p"])
+    if t == "fw_version_check":
+        label = {1: "nonsecure", 2: "secure", 3: "radio", 4: "snt", 5: "bootloader"}[c["c"]]
+        return {"checkFwVersion": {"value": n(c["v"]), "counterId": label}}, ("fw_version_check", c["v"], c["c"])
+    if t == "reset":
+        return {"reset": {}}, ("reset",)
+    raise HarnessError(f"command spec {c}")
+
+
+_SCRATCH = None
+
+
+def scratch_dir() -> str:
+    global _SCRATCH
+    import atexit
+    import shutil
+    import tempfile
+
+    if _SCRATCH is None or not os.path.isdir(_SCRATCH):
+        _SCRATCH = tempfile.mkdtemp(prefix="verif-c05-")
+        atexit.register(shutil.rmtree, _SCRATCH, True)
+    for f in os.listdir(_SCRATCH):
+        os.unlink(os.path.join(_SCRATCH, f))
+    return _SCRATCH
+
+
+# ----------------------------------------------------------------------------------------------
 
 
 class Run:
@@ -206,6 +319,91 @@ class Run:
 
     def probe(self, k, n=1):
         self.probes[k] = self.probes.get(k, 0) + n
+
+    def build_from_config(self, pre_cmds: list):
+        """The container as `nxpimage sb31 export` builds it: configuration dictionary -> SecureBinary31.load_from_config."""
+        p = self.plan
+        vc = p["via_config"]
+        ks = p["keys"]
+        curve = ks["curve"]
+        td = scratch_dir()
+        self.roots_xy = [pub_xy(key_path(curve, f"root{i}", pub=True)) for i in range(ks["nroots"])]
+        self.pck = gen_bytes(p.get("pck_seed", 1), p["pck_bits"] // 8)
+        self.expected_ts = p["timestamp"] if p.get("timestamp") else int(EPOCH + (CLOCK.now_us + CLOCK.wall_offset_us) / 1e6) - 946684800
+        self.sign_curve = ks["isk"] or curve
+        st = vc.get("num", "int")
+        cfg: dict = {"family": "lpc55s3x", "firmwareVersion": _num(p["fw"], st), "kdkAccessRights": _num(p["rights"], st), "containerConfigurationWord": _num(p.get("flags", 0), st), "isNxpContainer": bool(p.get("nxp")), "isEncrypted": p["encrypted"]}
+        if p.get("desc") is not None:
+            cfg["description"] = p["desc"]
+        if p.get("timestamp"):
+            cfg["timestamp"] = _num(p["timestamp"], st)
+        if p["encrypted"] or vc.get("pck_always"):
+            form = vc.get("pck_form", "hex")
+            if form == "hex":
+                cfg["containerKeyBlobEncryptionKey"] = self.pck.hex()
+            elif form == "txt":
+                with open(os.path.join(td, "pck.txt"), "w") as f:
+                    f.write(self.pck.hex() + "\n")
+                cfg["containerKeyBlobEncryptionKey"] = "pck.txt"
+            else:
+                with open(os.path.join(td, "pck.bin"), "wb") as f:
+                    f.write(self.pck)
+                cfg["containerKeyBlobEncryptionKey"] = "pck.bin"
+        cb_cfg: dict = {}
+        for i in range(ks["nroots"]):
+            cb_cfg[f"rootCertificate{i}File"] = key_path(curve, f"root{i}", pub=True)
+        if not vc.get("auto_root_id"):
+            cb_cfg["mainRootCertId"] = ks["used"]
+        root_key = key_path(curve, f"root{ks['used']}")
+        if ks.get("isk"):
+            cb_cfg["useIsk"] = True
+            cb_cfg["iskPublicKey" if vc.get("new_names") else "signingCertificateFile"] = key_path(ks["isk"], "isk", pub=True)
+            cb_cfg["iskCertificateConstraint" if vc.get("new_names") else "signingCertificateConstraint"] = _num(ks.get("constraints", 0), st)
+            ud = gen_bytes(77, ks.get("isk_user_data", 0))
+            if ud:
+                with open(os.path.join(td, "isk_data.bin"), "wb") as f:
+                    f.write(ud)
+                cb_cfg["iskCertData" if vc.get("new_names") else "signCertData"] = "isk_data.bin"
+            cb_cfg["signPrivateKey" if vc.get("new_names") else "mainRootCertPrivateKeyFile"] = root_key
+            cb_cfg["family"] = "lpc55s3x"
+            if vc.get("certblock") == "bin":
+                cb = S.CertBlockV21.from_config(dict(cb_cfg), search_paths=[td])
+                with open(os.path.join(td, "cb.bin"), "wb") as f:
+                    f.write(cb.export())
+                cfg["certBlock"] = "cb.bin"
+            else:
+                with open(os.path.join(td, "cb.json"), "w") as f:
+                    json.dump(cb_cfg, f)
+                cfg["certBlock"] = "cb.json"
+            cfg["signPrivateKey"] = key_path(ks["isk"], "isk")
+        else:
+            cb_cfg["useIsk"] = False
+            if vc.get("certblock") in ("file", "bin"):
+                cb_cfg["family"] = "lpc55s3x"
+                cb_cfg["signPrivateKey"] = root_key
+                if vc.get("certblock") == "bin":
+                    cb = S.CertBlockV21.from_config(dict(cb_cfg), search_paths=[td])
+                    with open(os.path.join(td, "cb.bin"), "wb") as f:
+                        f.write(cb.export())
+                    cfg["certBlock"] = "cb.bin"
+                else:
+                    with open(os.path.join(td, "cb.json"), "w") as f:
+                        json.dump(cb_cfg, f)
+                    cfg["certBlock"] = "cb.json"
+            else:
+                cfg.update(cb_cfg)
+            cfg["signPrivateKey" if vc.get("new_names") else "mainRootCertPrivateKeyFile"] = root_key
+        cmds = []
+        self.pre_expected = []
+        for i, c in enumerate(pre_cmds):
+            entry, tup = make_cfg_cmd(c, td, i)
+            cmds.append(entry)
+            self.pre_expected.append(tup)
+        cfg["commands"] = cmds
+        self.probe("built_from_config")
+        if ks.get("isk"):
+            self.probe("config_with_isk_certblock_" + vc.get("certblock", "file"))
+        return S.SecureBinary31.load_from_config(cfg, search_paths=[td])
 
     def build(self):
         p = self.plan
@@ -289,13 +487,28 @@ class Run:
         p = self.plan
         CLOCK.reset()
         CLOCK.advance(p.get("t0_us", 0))
-        sb = self.build()
+        pre_idx: list = []
+        if p.get("via_config"):
+            for k, op in enumerate(p["ops"]):
+                if op["op"] == "export":
+                    break
+                if op["op"] == "add":
+                    pre_idx.append(k)
+            try:
+                sb = self.build_from_config([p["ops"][k]["cmd"] for k in pre_idx])
+            except S.SPSDKError as exc:
+                raise HarnessError(f"the generated configuration was refused: {type(exc).__name__}: {exc}") from exc
+        else:
+            sb = self.build()
         expected: list = []
         exports: list = []  # (bytes, expected list snapshot)
         ndeliver = 0
         for k, op in enumerate(p["ops"]):
             name = op["op"]
-            if name == "add":
+            if name == "add" and k in pre_idx:
+                expected.append(self.pre_expected[pre_idx.index(k)])
+                self.log.add("add-config", op["cmd"]["t"], op["cmd"].get("l"))
+            elif name == "add":
                 cmd, tup = make_cmd(op["cmd"])
                 sb.sb_commands.add_command(cmd)
                 expected.append(tup)
@@ -579,6 +792,21 @@ def gen_plan(family: str, i: int, rng: random.Random, tier: str) -> dict:
     for _ in range(rng.randint(1, 6)):
         ops.append({"op": "add", "cmd": gen_cmd(rng)})
     ops.append({"op": "export"})
+    if rng.random() < 0.3:
+        # the configuration route: the same container described as nxpimage's configuration
+        plan["via_config"] = {
+            "num": rng.choice(["int", "hex", "dec", "HEX"]),
+            "pck_form": rng.choice(["hex", "txt", "bin"]),
+            "pck_always": rng.random() < 0.5,
+            "auto_root_id": rng.random() < 0.3,
+            "new_names": rng.random() < 0.5,
+            "certblock": rng.choice(["inline", "file", "bin"]),
+        }
+        for o in ops:
+            if o["op"] == "add":
+                o["cmd"].update(num=rng.choice(["int", "hex", "dec", "HEX", "bin"]), form=rng.choice(["file", "values", "value"]), explicit_mem=rng.random() < 0.5, auth_none=rng.random() < 0.2, via_load=rng.random() < 0.4)
+                if o["cmd"]["t"] in ("load", "program_ifr") and rng.random() < 0.4:
+                    o["cmd"]["l"] = rng.choice([4, 8, 4, 12, 16, 64, 96])
     if family == "control":
         return plan
 
